@@ -111,3 +111,17 @@ Definition wf_category_090_text (k : ckind) (c : carg) : Prop :=
    limits of the constrained type (c = true) *)
 Definition wf_lss (c : bool) (l : lss) : Prop :=
   l <> [] /\ Forall (fun e => tag_ok (fst e) = true /\ (c = true -> snd e = true)) l.
+
+(* ---- SubmodelElementList (constraints.rst) --------------------------------------------------
+   AASd-108: all first level children have the submodel element type typeValueListElement (an
+             abstract type stands for its concrete subclasses);
+   AASd-107: a child that has a semanticId has semanticIdListElement, if that is specified;
+   AASd-109: for Property/Range lists valueTypeListElement is set and every child has it;
+   AASd-114: any two children that have a semanticId have the same one. *)
+Definition elem_ok (c : lcfg) (e : elem) : Prop :=
+  (ety e = tle c \/ In (ety e) (members c)) /\
+  (forall s s', semle c = Some s -> esem e = Some s' -> s' = s) /\
+  (prop_or_range c = true -> vtle c = Some (evt e)).
+Definition wf_list (c : lcfg) (l : list elem) : Prop :=
+  (forall x, In x l -> elem_ok c x) /\
+  (forall x y a b, In x l -> In y l -> esem x = Some a -> esem y = Some b -> a = b).
